@@ -28,6 +28,18 @@ def mutated_params(f):
     params = set(f.params)
     rebound = set()
     out = {}
+    # may-alias closure: a local bound (anywhere) to a parameter or to an alias of it denotes the caller's array
+    alias_of = {}
+    changed = True
+    while changed:
+        changed = False
+        for n in ast.walk(f.node):
+            if isinstance(n, ast.Assign) and isinstance(n.value, ast.Name) and (n.value.id in params or n.value.id in alias_of):
+                root = alias_of.get(n.value.id, n.value.id)
+                for t in n.targets:
+                    if isinstance(t, ast.Name) and t.id not in params and alias_of.get(t.id) != root:
+                        alias_of[t.id] = root
+                        changed = True
     for n in ast.walk(f.node):
         if isinstance(n, ast.Assign):
             for t in n.targets:
@@ -47,6 +59,9 @@ def mutated_params(f):
         base = tgt
         while isinstance(base, (ast.Subscript, ast.Attribute)):
             base = base.value
+        if isinstance(base, ast.Name) and base.id in alias_of:
+            out.setdefault(alias_of[base.id], n)
+            continue
         if isinstance(base, ast.Name) and base.id in params:
             # a parameter re-bound earlier to a fresh object (interactions = interactions.copy()) is no longer the caller's
             if base.id in first_rebind and first_rebind[base.id] < n.lineno:
